@@ -534,6 +534,10 @@ func (c *FnCtx) evalInstr(v ssa.Value, get getter, h Heap, checks bool) (Val, bo
 				return Val{T: c.fresh("runestr", "Slice"), Ty: tt}, true
 			}
 		}
+		// float <-> integer conversions: deterministic uninterpreted functions (floats are opaque)
+		if fb != nil && tb != nil && (fb.Info()&types.IsFloat != 0 || tb.Info()&types.IsFloat != 0) && (fi || ti || (fb.Info()&types.IsFloat != 0 && tb.Info()&types.IsFloat != 0)) {
+			return Val{T: c.floatConv(x.T, ft, tt), Ty: tt}, true
+		}
 		if _, isPtr := tt.Underlying().(*types.Pointer); isPtr {
 			if tb2, ok := ft.Underlying().(*types.Basic); ok && tb2.Kind() == types.UnsafePointer {
 				c.unsup("unsafe.Pointer conversion")
@@ -936,4 +940,14 @@ func (c *FnCtx) sortOfSafe(t types.Type) (s string) {
 		return ""
 	}
 	return c.sortOf(t)
+}
+
+// floatConv: conversions involving floats are uninterpreted but deterministic functions.
+func (c *FnCtx) floatConv(x string, ft, tt types.Type) string {
+	f := sym("conv " + typeName(ft.Underlying()) + "->" + typeName(tt.Underlying()))
+	c.decl("(declare-fun " + f + " (" + c.sortOf(ft) + ") " + c.sortOf(tt) + ")")
+	if ii, ok := intInfoOf(tt); ok && c.mode == ModeInt {
+		c.decl("(assert (forall ((x " + c.sortOf(ft) + ")) (! (and (<= " + smtInt(ii.min()) + " (" + f + " x)) (<= (" + f + " x) " + smtInt(ii.max()) + ")) :pattern ((" + f + " x)))))")
+	}
+	return "(" + f + " " + x + ")"
 }
